@@ -563,8 +563,13 @@ func (d *Decoder) newCoderAndShards() (rsec16.Coder, [][]byte, error) {
 		return rsec16.Coder{}, nil, errors.New("no file integrity info")
 	}
 
-	if len(d.parityShards) == 0 {
-		return rsec16.Coder{}, nil, errors.New("no parity shards")
+	// With no recovery blocks left the coder must still be built
+	// (it needs at least one parity row), so that files whose
+	// slices all survive can be reassembled and missing slices are
+	// reported as NotEnoughParityShardsError.
+	parityShardCount := len(d.parityShards)
+	if parityShardCount == 0 {
+		parityShardCount = 1
 	}
 
 	var dataShards [][]byte
@@ -573,7 +578,7 @@ func (d *Decoder) newCoderAndShards() (rsec16.Coder, [][]byte, error) {
 			dataShards = append(dataShards, shardInfo.data)
 		}
 	}
-	coder, err := rsec16.NewCoderPAR2Vandermonde(len(dataShards), len(d.parityShards), d.numGoroutines)
+	coder, err := rsec16.NewCoderPAR2Vandermonde(len(dataShards), parityShardCount, d.numGoroutines)
 	if err != nil {
 		return rsec16.Coder{}, nil, err
 	}
